@@ -92,6 +92,54 @@ Proof.
     rewrite ?mget_mset; destruct (N.eqb r k); reflexivity.
 Qed.
 
+(** a failing write: still nothing but the two stores; whatever it leaves behind was good before or is the new (good) entry *)
+Lemma ds_put_fail_fields cf s k v o :
+  s_count (ds_put_fail cf s k v o) = s_count s /\ s_thr (ds_put_fail cf s k v o) = s_thr s /\
+  s_served (ds_put_fail cf s k v o) = s_served s /\ s_sess (ds_put_fail cf s k v o) = s_sess s /\
+  s_closed (ds_put_fail cf s k v o) = s_closed s /\ s_next (ds_put_fail cf s k v o) = s_next s.
+Proof.
+  unfold ds_put_fail. destruct (c_drop cf); destruct o; simpl; auto 10.
+Qed.
+
+Lemma SInv_drop_buf wf s : SInv wf s -> SInv wf (set_store s (s_disk s) []).
+Proof. intros [H1 H2 H3 H4]. constructor; simpl; auto. intros; discriminate. Qed.
+
+Lemma SInv_ds_put_fail wf cf s k v o :
+  SInv wf s -> good (s_served s) (wf k) k v -> SInv wf (ds_put_fail cf s k v o).
+Proof.
+  intros Hs Hg. unfold ds_put_fail.
+  assert (H1 : SInv wf (set_store s (s_disk s) (mset k v (s_buf s)))).
+  { destruct Hs as [H1 H2 H3 H4]. constructor; simpl; auto.
+    intros r res. rewrite mget_mset. destruct (N.eqb_spec r k); [intros E; inversion E; subst; exact Hg|apply H3]. }
+  set (s1 := set_store s (s_disk s) (mset k v (s_buf s))) in *.
+  assert (H2 : SInv wf (match o with SfEarly => s1 | SfCommit => set_store s1 (s_disk s1) [] | SfSecond => ds_flush s1 end)).
+  { destruct o; [exact H1|apply SInv_drop_buf, H1|apply SInv_flush, H1]. }
+  destruct (c_drop cf); [apply SInv_drop_buf|]; exact H2.
+Qed.
+
+(** fix-c03-3: after a failed write the buffer is empty; the entry is durable exactly when only the second flush failed *)
+Lemma ds_put_fail_drop_buf cf s k v o : c_drop cf = true -> s_buf (ds_put_fail cf s k v o) = [].
+Proof. intros H. unfold ds_put_fail. rewrite H. reflexivity. Qed.
+
+Lemma ds_put_fail_drop_disk cf s k v o :
+  c_drop cf = true -> o <> SfSecond -> s_disk (ds_put_fail cf s k v o) = s_disk s.
+Proof. intros H Ho. unfold ds_put_fail. rewrite H. destruct o; try reflexivity. congruence. Qed.
+
+Lemma view_ds_put_fail_second cf s k v r :
+  view (ds_put_fail cf s k v SfSecond) r = if N.eqb r k then Some v else view s r.
+Proof.
+  unfold ds_put_fail, view. destruct (c_drop cf); simpl; rewrite mget_mflush, mget_mset; destruct (N.eqb r k); reflexivity.
+Qed.
+
+Lemma view_ds_put_fail_nothing cf s k v o r :
+  c_drop cf = true -> o <> SfSecond -> s_buf s = [] -> view (ds_put_fail cf s k v o) r = view s r.
+Proof.
+  intros Hd Ho Hb. unfold view. rewrite (ds_put_fail_drop_buf _ _ _ _ _ Hd), (ds_put_fail_drop_disk _ _ _ _ _ Hd Ho), Hb. reflexivity.
+Qed.
+
+Lemma fault_verdict_not_ok e : fault_verdict e <> VOk.
+Proof. destruct e; discriminate. Qed.
+
 Lemma SInv_add_served wf s l : SInv wf s -> SInv wf (add_served s l).
 Proof.
   intros [H1 H2 H3 H4]. assert (Hi : incl (s_served s) (l ++ s_served s)) by (intros x Hx; apply in_or_app; auto).
@@ -189,6 +237,21 @@ Proof.
       apply SInv_ds_put; [apply SInv_add_served, Hs|exact Hg'].
 Qed.
 
+Lemma SInv_step_resp_fail wf cf s t h c res r o e :
+  SInv wf s -> mget t (s_thr s) = Some (h, TReq c res) -> SInv wf (step_resp_fail cf s t h c res r o e).
+Proof.
+  intros Hs Ht. pose proof (inv_thr _ _ Hs _ _ _ Ht) as [Hw [Hg Hto]].
+  unfold step_resp_fail. destruct (rs_slots r) as [|x sl'] eqn:Esl.
+  - apply SInv_set_thr; [exact Hs|split; [exact Hw|exact I]].
+  - destruct (Nat.ltb _ _).
+    + apply SInv_set_thr; [exact Hs|split; [exact Hw|exact I]].
+    + set (sl := x :: sl') in *.
+      set (res' := mkres (r_avail res ++ fst (split_resp (r_rem res) sl)) (snd (split_resp (r_rem res) sl))).
+      pose proof (resp_good (s_served s) (wf (hr h)) (hr h) res sl Hg) as Hg'. fold res' in Hg'.
+      apply SInv_set_thr; [|split; [exact Hw|exact I]].
+      apply SInv_ds_put_fail; [apply SInv_add_served, Hs|exact Hg'].
+Qed.
+
 Lemma SInv_step wf cf s e : ev_wf wf e -> SInv wf s -> SInv wf (fstep cf s e).
 Proof.
   intros He Hs. destruct e; simpl in *.
@@ -199,6 +262,14 @@ Proof.
     pose proof (inv_thr _ _ Hs _ _ _ Et) as [Hw _]. apply SInv_set_thr; [exact Hs|split; [exact Hw|exact I]].
   - destruct Hs as [H1 H2 H3 H4]. constructor; simpl; auto; intros; discriminate.
   - apply SInv_flush in Hs. destruct Hs as [H1 H2 H3 H4]. constructor; simpl; auto; intros; discriminate.
+  - (* FLoadFail *) destruct (mget t (s_thr s)) as [[h ts]|] eqn:Et; [|exact Hs]. destruct ts; try exact Hs.
+    destruct (buffered s (hr h)); [exact Hs|].
+    pose proof (inv_thr _ _ Hs _ _ _ Et) as [Hw _]. apply SInv_set_thr; [exact Hs|split; [exact Hw|exact I]].
+  - (* FStoreFail *) destruct (mget t (s_thr s)) as [[h ts]|] eqn:Et; [|exact Hs]. destruct ts; try exact Hs.
+    pose proof (inv_thr _ _ Hs _ _ _ Et) as [Hw [Hg Hto]].
+    apply SInv_set_thr; [apply SInv_ds_put_fail; auto|split; [exact Hw|exact I]].
+  - (* FRespFail *) destruct (mget t (s_thr s)) as [[h ts]|] eqn:Et; [|exact Hs]. destruct ts; try exact Hs.
+    apply SInv_step_resp_fail; auto.
 Qed.
 
 Lemma frun_app cf s es es' : frun cf s (es ++ es') = frun cf (frun cf s es) es'.
@@ -216,11 +287,15 @@ Qed.
 (** * avail_sound *)
 
 (** the getter kept the contract of shwap.Getter for the answer [e] (same length as the request, or nothing at all) *)
+(** the getter answer an event carries (whether or not the persist after it fails) *)
+Definition resp_of (e : fev) : option (N * response) :=
+  match e with FResp t r | FRespFail t r _ _ => Some (t, r) | _ => None end.
+
 Definition answer_in_contract (s : state) (e : fev) : Prop :=
-  match e with
-  | FResp t r => forall h c res, mget t (s_thr s) = Some (h, TReq c res) ->
+  match resp_of e with
+  | Some (t, r) => forall h c res, mget t (s_thr s) = Some (h, TReq c res) ->
                    length (rs_slots r) = 0%nat \/ length (rs_slots r) = length (r_rem res)
-  | _ => True
+  | None => True
   end.
 
 Definition sampled_set (s : state) (h : hdr) (av : list coord) : Prop :=
@@ -297,7 +372,7 @@ Proof.
         destruct (rs_slots r); [|destruct (Nat.ltb _ _)]; simpl; rewrite mget_mset_ne; auto.
         rewrite (proj1 (proj2 (ds_put_fields _ _ _ _))). reflexivity. }
     pose proof (inv_thr _ _ Hs _ _ _ E0) as [Hw [Hg Hto]].
-    specialize (Hc _ _ _ eq_refl).
+    unfold answer_in_contract in Hc. simpl in Hc. specialize (Hc _ _ _ E0).
     unfold step_resp in *. destruct (rs_slots r) as [|x sl'] eqn:Esl.
     + simpl in H'. rewrite mget_mset_eq in H'. discriminate.
     + remember (x :: sl') as sl eqn:Hsl.
@@ -321,6 +396,20 @@ Proof.
     destruct (N.eqb t t0); [discriminate|contradiction].
   - discriminate.
   - discriminate.
+  - (* FLoadFail: the verdict is an error *) destruct (mget t0 (s_thr s)) as [[h0 ts]|] eqn:E0; [|contradiction].
+    destruct ts; try contradiction. destruct (buffered s (hr h0)); [contradiction|].
+    simpl in H'. rewrite mget_mset in H'. destruct (N.eqb t t0); [|contradiction].
+    inversion H' as [[Eh Ec Ev]]. exfalso. eapply fault_verdict_not_ok; eauto.
+  - (* FStoreFail *) destruct (mget t0 (s_thr s)) as [[h0 ts]|] eqn:E0; [|contradiction].
+    destruct ts; try contradiction.
+    simpl in H'. rewrite mget_mset, (proj1 (proj2 (ds_put_fail_fields _ _ _ _ _))) in H'. destruct (N.eqb t t0); [|contradiction].
+    inversion H' as [[Eh Ec Ev]]. exfalso. eapply fault_verdict_not_ok; eauto.
+  - (* FRespFail *) destruct (mget t0 (s_thr s)) as [[h0 ts]|] eqn:E0; [|contradiction].
+    destruct ts; try contradiction. unfold step_resp_fail in H'.
+    destruct (rs_slots r); [|destruct (Nat.ltb _ _)]; simpl in H'; rewrite mget_mset in H';
+      rewrite ?(proj1 (proj2 (ds_put_fail_fields _ _ _ _ _))) in H'; simpl in H';
+      (destruct (N.eqb t t0); [|contradiction]); inversion H' as [[Eh Ec Ev]].
+    exfalso. eapply fault_verdict_not_ok; eauto.
 Qed.
 
 Theorem avail_sound wf cf count es e t h c :
@@ -335,11 +424,33 @@ Proof.
   eapply avail_sound_step; eauto. apply SInv_run; [exact Hf|apply SInv_init, Hc].
 Qed.
 
+(** * a failed load
+    load_fault_inert: when the [Get] of the previous result fails (any error class: I/O, context cancelled or expired) the
+    call goes to its return with that error — never "available" — and NOTHING else changes: not the durable datastore, not
+    the write buffer, not the served log, not the sessions, not any other call. In particular nothing is drawn. (A result
+    that sits in the write buffer is answered by autobatch without touching the datastore: then there is no such failure.) *)
+Theorem load_fault_inert cf s t e :
+  let s' := fstep cf s (FLoadFail t e) in
+  s_disk s' = s_disk s /\ s_buf s' = s_buf s /\ s_served s' = s_served s /\ s_sess s' = s_sess s /\
+  s_closed s' = s_closed s /\ s_count s' = s_count s /\
+  (forall t', t' <> t -> mget t' (s_thr s') = mget t' (s_thr s)) /\
+  (mget t (s_thr s') = mget t (s_thr s) \/
+   exists h c, mget t (s_thr s) = Some (h, TLoad c) /\ buffered s (hr h) = false /\
+               mget t (s_thr s') = Some (h, TRel c (fault_verdict e)) /\ fault_verdict e <> VOk).
+Proof.
+  simpl. destruct (mget t (s_thr s)) as [[h ts]|] eqn:Et; [|repeat split; auto].
+  destruct ts; try (repeat split; auto; fail).
+  destruct (buffered s (hr h)) eqn:Eb; [repeat split; auto|].
+  repeat split; simpl; auto.
+  - intros t' Hn. apply mget_mset_ne, Hn.
+  - right. exists h, c. repeat split; auto; [apply mget_mset_eq|apply fault_verdict_not_ok].
+Qed.
+
 (** * what the log [s_served] means: every entry is a non-empty slot of a real answer, at the position of that coordinate
       in the request of a call for that root *)
 Lemma served_step cf s e :
   s_served (fstep cf s e) = s_served s \/
-  exists t r h c res, e = FResp t r /\ mget t (s_thr s) = Some (h, TReq c res) /\
+  exists t r h c res, resp_of e = Some (t, r) /\ mget t (s_thr s) = Some (h, TReq c res) /\
                       s_served (fstep cf s e) = served_of (hr h) (r_rem res) (rs_slots r) ++ s_served s.
 Proof.
   destruct e; simpl.
@@ -354,43 +465,51 @@ Proof.
   - left. destruct (mget t (s_thr s)) as [[h ts]|]; [|reflexivity]. destruct ts; reflexivity.
   - left. reflexivity.
   - left. reflexivity.
+  - left. destruct (mget t (s_thr s)) as [[h ts]|]; [|reflexivity]. destruct ts; try reflexivity.
+    destruct (buffered s (hr h)); reflexivity.
+  - left. destruct (mget t (s_thr s)) as [[h ts]|]; [|reflexivity]. destruct ts; try reflexivity.
+    simpl. apply (proj1 (proj2 (proj2 (ds_put_fail_fields _ _ _ _ _)))).
+  - destruct (mget t (s_thr s)) as [[h ts]|] eqn:E; [|left; reflexivity]. destruct ts; try (left; reflexivity).
+    unfold step_resp_fail. destruct (rs_slots r) eqn:Esl; [left; reflexivity|]. destruct (Nat.ltb _ _); [left; reflexivity|].
+    right. exists t, r, h, c, res. repeat split; auto. simpl. rewrite Esl.
+    rewrite (proj1 (proj2 (proj2 (ds_put_fail_fields _ _ _ _ _)))). reflexivity.
 Qed.
 
 Theorem served_genuine cf s0 es r c b :
   s_served s0 = [] -> In (r, c, b) (s_served (frun cf s0 es)) ->
-  exists es1 t resp es2 h ch res i,
-    es = es1 ++ FResp t resp :: es2 /\
+  exists es1 e t resp es2 h ch res i,
+    es = es1 ++ e :: es2 /\ resp_of e = Some (t, resp) /\
     mget t (s_thr (frun cf s0 es1)) = Some (h, TReq ch res) /\ hr h = r /\
     nth_error (r_rem res) i = Some c /\ nth_error (rs_slots resp) i = Some (SFull b).
 Proof.
   intros H0. induction es as [|e es IH] using rev_ind; intros Hin.
   - simpl in Hin. rewrite H0 in Hin. contradiction.
   - rewrite frun_snoc in Hin. destruct (served_step cf (frun cf s0 es) e) as [E|[t [resp [h [ch [res [Ee [Et E]]]]]]]].
-    + rewrite E in Hin. destruct (IH Hin) as [es1 [t [resp [es2 [h [ch [res [i [A [B [C [D F]]]]]]]]]]]].
-      exists es1, t, resp, (es2 ++ [e]), h, ch, res, i. repeat split; auto. rewrite A, <- app_assoc. reflexivity.
+    + rewrite E in Hin. destruct (IH Hin) as [es1 [e1 [t [resp [es2 [h [ch [res [i [A [A' [B [C [D F]]]]]]]]]]]]]].
+      exists es1, e1, t, resp, (es2 ++ [e]), h, ch, res, i. repeat split; auto. rewrite A, <- app_assoc. reflexivity.
     + rewrite E in Hin. apply in_app_or in Hin. destruct Hin as [Hin|Hin].
       * apply served_of_In in Hin. destruct Hin as [c' [b' [i [Ex [N1 N2]]]]]. inversion Ex; subst.
-        exists es, t, resp, [], h, ch, res, i. repeat split; auto.
-      * destruct (IH Hin) as [es1 [t' [resp' [es2 [h' [ch' [res' [i [A [B [C [D F]]]]]]]]]]]].
-        exists es1, t', resp', (es2 ++ [e]), h', ch', res', i. repeat split; auto. rewrite A, <- app_assoc. reflexivity.
+        exists es, e, t, resp, [], h, ch, res, i. repeat split; auto.
+      * destruct (IH Hin) as [es1 [e1 [t' [resp' [es2 [h' [ch' [res' [i [A [A' [B [C [D F]]]]]]]]]]]]]].
+        exists es1, e1, t', resp', (es2 ++ [e]), h', ch', res', i. repeat split; auto. rewrite A, <- app_assoc. reflexivity.
 Qed.
 
 (** what C06 must supply: if every non-empty slot a getter ever hands back is a verified sample, everything counted is verified *)
 Definition answer_verified (e : fev) : Prop :=
-  match e with FResp _ r => forall b, In (SFull b) (rs_slots r) -> b = true | _ => True end.
+  match resp_of e with Some (_, r) => forall b, In (SFull b) (rs_slots r) -> b = true | None => True end.
 
 Theorem served_verified cf s0 es r c b :
   s_served s0 = [] -> Forall answer_verified es -> In (r, c, b) (s_served (frun cf s0 es)) -> b = true.
 Proof.
-  intros H0 Hv Hin. destruct (served_genuine cf s0 es r c b H0 Hin) as [es1 [t [resp [es2 [h [ch [res [i [A [_ [_ [_ F]]]]]]]]]]]].
-  subst es. apply Forall_app in Hv. destruct Hv as [_ Hv]. inversion Hv as [|? ? Hr _]; subst. simpl in Hr.
-  apply Hr. eapply nth_error_In, F.
+  intros H0 Hv Hin. destruct (served_genuine cf s0 es r c b H0 Hin) as [es1 [e [t [resp [es2 [h [ch [res [i [A [A' [_ [_ [_ F]]]]]]]]]]]]]].
+  subst es. apply Forall_app in Hv. destruct Hv as [_ Hv]. inversion Hv as [|? ? Hr _]; subst. unfold answer_verified in Hr.
+  rewrite A' in Hr. apply Hr. eapply nth_error_In, F.
 Qed.
 
 Corollary served_genuine_init cf count es r c b :
   In (r, c, b) (s_served (frun cf (init count) es)) ->
-  exists es1 t resp es2 h ch res i,
-    es = es1 ++ FResp t resp :: es2 /\
+  exists es1 e t resp es2 h ch res i,
+    es = es1 ++ e :: es2 /\ resp_of e = Some (t, resp) /\
     mget t (s_thr (frun cf (init count) es1)) = Some (h, TReq ch res) /\ hr h = r /\
     nth_error (r_rem res) i = Some c /\ nth_error (rs_slots resp) i = Some (SFull b).
 Proof. apply served_genuine. reflexivity. Qed.
